@@ -21,7 +21,7 @@ from sim import runner  # noqa: E402
 from sim import scenarios as S  # noqa: E402
 from sim import scenarios_ins as SI  # noqa: E402
 from sim import world as W  # noqa: E402
-from sim.incarnation import SIGNAL_EXIT  # noqa: E402
+SIGNAL_EXIT = 77  # exit_code given to FlowSampler in every scenario (sim.incarnation.SIGNAL_EXIT)
 
 PROP = "C13"
 SIGS = {"SIGTERM": 15, "SIGINT": 2, "SIGALRM": 14}
